@@ -59,6 +59,21 @@ Theorem C36_order_result_minimal : forall desc limit rows out,
 Proof. exact order_result_minimal. Qed.
 Print Assumptions C36_order_result_minimal.
 
+(* (2a) for .kfst footers written by TimeIndexBuilder.scanSegment (or absent) the footer
+        hypothesis is discharged: the builder's numbers are the min/max over the segment's
+        records, whatever the order of the record timestamps *)
+Theorem C36_scan_segment_sound : forall w,
+  w_footer w = scan_segment (w_recs w) -> footer_sound w.
+Proof. exact scan_segment_sound. Qed.
+Print Assumptions C36_scan_segment_sound.
+
+Theorem C36_discovery_stats_sound_built : forall ws,
+  contiguous ws ->
+  Forall (fun w => w_footer w = None \/ w_footer w = scan_segment (w_recs w)) ws ->
+  Forall stats_sound (discover ws).
+Proof. exact discovery_stats_sound_built. Qed.
+Print Assumptions C36_discovery_stats_sound_built.
+
 (* (2b) the discovery cache and the manifest cache are transparent over an unchanged
         bucket: every ListCompleted call (miss, hit, after expiry; MaxEntries or not)
         returns the wrapped lister's listing, so cached listings carry sound statistics *)
